@@ -346,8 +346,15 @@ def check_segmentation_flag(ctx, bodies, what):
                 f2 = f
                 if f[0] == 'upvar':
                     f2 = _core(resolve_upvars(ctx, b, f))
-                plain = f2[0] in ('arg', 'const') or (f2[0] == 'field' and f2[1][0] in ('arg', 'field', 'upvar', 'var')) or \
-                    (f2[0] == 'var' and len(_defs_of(b, f2[2])[0]) <= 1) or f2[0] == 'upvar'
+                def _plain(x, d=0):
+                    if x[0] in ('arg', 'const', 'upvar'):
+                        return True
+                    if x[0] == 'var':
+                        return len(_defs_of(b, x[2])[0]) <= 1
+                    if x[0] in ('field', 'variant') and d < 6:
+                        return _plain(x[1], d + 1)
+                    return False
+                plain = _plain(f2)
                 ctx.require(plain, b, 'segmentation-flag|' + what, '%s: CharString::new(.., flag) at line %d receives the grapheme flag unchanged' % (what, t.span['line']),
                             '%s: CharString::new at line %d is given the computed flag `%s`: this site segments the text differently from every other site '
                             '(e.g. "\\r\\n" is one ASCII grapheme cluster), so character indices, operation lists and lengths no longer agree' % (
